@@ -22,7 +22,9 @@ def check_graph(g: onnx.GraphProto, outer: set, all_defs: set, problems: list, u
     def define(name, what):
         if name == "":
             return
-        if name in all_defs:
+        # SSA within one graph; a nested graph must not redefine a name visible from an enclosing scope.
+        # (sibling subgraphs, e.g. the two branches of an If, may reuse a name: they are separate graphs)
+        if name in local:
             problems.append(f"{path}: {what} {name!r} defined more than once")
         if name in outer:
             problems.append(f"{path}: {what} {name!r} redefines an outer-scope name")
